@@ -113,10 +113,12 @@ theorem slotOf_found {c : Ctx} {i : Nat} {s : Slot} (h : findSlot c = .ok (i, s)
 /-- **the ledger step of a whole instruction**: in the bank operated on, the share totals move by exactly what the
     account's positions in that bank move, plus the shares a closure abandons (`dA`, `dL`); the account's positions in every
     OTHER bank are what they were — find_or_create, the write-back and the sort included -/
-structure LedgerStep (c : Ctx) (o : Out) (dA dL : Int) : Prop where
-  assets : o.books.sa - c.b.books.sa = posA c.b.key o.slots - posA c.b.key c.a.slots + dA
-  liabs : o.books.sl - c.b.books.sl = posL c.b.key o.slots - posL c.b.key c.a.slots + dL
-  others : ∀ k, k ≠ c.b.key → posA k o.slots = posA k c.a.slots ∧ posL k o.slots = posL k c.a.slots
+structure LedgerStepG (key : Nat) (slots0 slots1 : List Slot) (b0 b1 : Bank) (dA dL : Int) : Prop where
+  assets : b1.sa - b0.sa = posA key slots1 - posA key slots0 + dA
+  liabs : b1.sl - b0.sl = posL key slots1 - posL key slots0 + dL
+  others : ∀ k, k ≠ key → posA k slots1 = posA k slots0 ∧ posL k slots1 = posL k slots0
+
+abbrev LedgerStep (c : Ctx) (o : Out) (dA dL : Int) : Prop := LedgerStepG c.b.key c.a.slots o.slots c.b.books o.books dA dL
 
 theorem borrowCore_delta {e : Ix.Env} {b b' : Bank} {x x' : Balance} {amount t : Int}
     (h : borrowCore e b x amount = .ok (b', x', t)) :
@@ -278,18 +280,18 @@ structure WInv (w : WState) : Prop where
   ledgerL : ∀ (j : Nat) (b : WBank), w.banks[j]? = some b →
     b.v.books.sl = (w.accts.map fun a => posL b.v.key a.slots).sum + w.dustL b.v.key
 
-theorem commit_inv {w : WState} {ai bi : Nat} {a : AcctV} {b : WBank} {o : Out} {dA dL : Int} {signer vault : Nat} {va : Int}
+theorem commit_inv {w : WState} {ai bi : Nat} {a : AcctV} {b : WBank} {slots : List Slot} {flags : Nat} {books : Bank} {opState : Int}
+    {window : Admin.Window} {dA dL : Int}
     (hi : WInv w) (ha : w.accts[ai]? = some a) (hb : w.banks[bi]? = some b)
-    (hs : LedgerStep (w.ctx a b signer vault va) o dA dL) : WInv (w.commit ai bi a b o dA dL) := by
+    (hs : LedgerStepG b.v.key a.slots slots b.v.books books dA dL) : WInv (w.commit ai bi a b slots flags books opState window dA dL) := by
   obtain ⟨hk, hA, hL⟩ := hi
   obtain ⟨sA, sL, sO⟩ := hs
-  simp only [WState.ctx] at sA sL sO
   have hlen : bi < w.banks.length := by
     rcases Nat.lt_or_ge bi w.banks.length with h | h
     · exact h
     · rw [List.getElem?_eq_none h] at hb; cases hb
-  have getb : ∀ j, (w.banks.set bi { b with v := { b.v with books := o.books } })[j]? =
-      if bi = j then some { b with v := { b.v with books := o.books } } else w.banks[j]? := by
+  have getb : ∀ j, (w.banks.set bi { b with v := { b.v with books := books, opState := opState } })[j]? =
+      if bi = j then some { b with v := { b.v with books := books, opState := opState } } else w.banks[j]? := by
     intro j
     rw [List.getElem?_set]
     by_cases hj : bi = j
@@ -346,6 +348,357 @@ theorem commit_inv {w : WState} {ai bi : Nat} {a : AcctV} {b : WBank} {o : Out} 
       simp only [bump, hne, if_false]
       omega
 
+/-- writing a slot back in place (no sort): same accounting as `write_pos`, for any bank key -/
+theorem set_pos {key : Nat} {l : List Slot} {i : Nat} {s : Slot} {x' : Balance} (hs : l[i]? = some s)
+    (ha : s.active = true) (hb : s.bank = key) (hx : x'.active = true ∨ (x'.a = 0 ∧ x'.l = 0)) :
+    posA key (l.set i (ofBal key x')) = posA key l - s.a + x'.a ∧
+    posL key (l.set i (ofBal key x')) = posL key l - s.l + x'.l ∧
+    ∀ k, k ≠ key → posA k (l.set i (ofBal key x')) = posA k l ∧ posL k (l.set i (ofBal key x')) = posL k l := by
+  refine ⟨?_, ?_, ?_⟩
+  · rw [posA_set _ l i s _ hs]
+    have h1 : ctrA key s = s.a := by simp [ctrA, ha, hb]
+    have h2 : ctrA key (ofBal key x') = x'.a := by
+      rcases hx with hx | hx
+      · simp [ctrA, ofBal, hx]
+      · by_cases hact : x'.active = true <;> simp [ctrA, ofBal, hact, hx.1]
+    rw [h1, h2]
+  · rw [posL_set _ l i s _ hs]
+    have h1 : ctrL key s = s.l := by simp [ctrL, ha, hb]
+    have h2 : ctrL key (ofBal key x') = x'.l := by
+      rcases hx with hx | hx
+      · simp [ctrL, ofBal, hx]
+      · by_cases hact : x'.active = true <;> simp [ctrL, ofBal, hact, hx.2]
+    rw [h1, h2]
+  · intro k hk
+    have h1 : ctrA k s = 0 ∧ ctrL k s = 0 := by
+      have : (s.bank == k) = false := by simp [hb]; omega
+      simp [ctrA, ctrL, this]
+    have h2 : ctrA k (ofBal key x') = 0 ∧ ctrL k (ofBal key x') = 0 := by
+      by_cases hact : x'.active = true
+      · have : (key == k) = false := by simp; omega
+        simp [ctrA, ctrL, ofBal, hact, this]
+      · simp [ctrA, ctrL, ofBal, hact]
+    rw [posA_set _ l i s _ hs, posL_set _ l i s _ hs, h1.1, h1.2, h2.1, h2.2]
+    omega
+
+theorem findIdx_slot {l : List Slot} {key i : Nat} (h : findIdx l key = some i) :
+    ∃ s, l[i]? = some s ∧ s.active = true ∧ s.bank = key := by
+  unfold findIdx at h
+  rw [List.findIdx?_eq_some_iff_getElem] at h
+  obtain ⟨hk, hp, _⟩ := h
+  simp only [Bool.and_eq_true, beq_iff_eq] at hp
+  exact ⟨l[i], by simp [hk], hp.1, hp.2⟩
+
+theorem socializeLoss_totals {b b' : Bank} {loss : Int} {k : Bool} (h : socializeLoss b loss = .ok (b', k)) :
+    b'.sa = b.sa ∧ b'.sl = b.sl := by
+  unfold socializeLoss at h
+  obtain ⟨total, _, h⟩ := Res.bind_ok h
+  split at h
+  · injection h with h; injection h with h1 _; subst h1; exact ⟨rfl, rfl⟩
+  · obtain ⟨diff, _, h⟩ := Res.bind_ok h
+    obtain ⟨nsv, _, h⟩ := Res.bind_ok h
+    injection h with h; injection h with h1 _; subst h1; exact ⟨rfl, rfl⟩
+
+/-- what a successful `World.bankruptcy` went through (the part the ledger needs) -/
+theorem bankruptcy_core {c : Ctx} {available : Int} {o : BkrOut} (h : bankruptcy c available = .ok o) :
+    ∃ b i x st, accrueInterest c.b.books c.b.ir c.now = .ok b ∧ findIdx c.a.slots c.b.key = some i ∧
+      balAt c.a.slots i = .ok x ∧ settleBankruptcy b x available c.now = .ok st ∧
+      o.books = st.bank ∧ o.slots = c.a.slots.set i (ofBal c.b.key st.bal) := by
+  unfold bankruptcy at h
+  obtain ⟨_, _, h⟩ := Res.bind_ok h
+  obtain ⟨_, _, h⟩ := Res.bind_ok h
+  obtain ⟨_, _, h⟩ := Res.bind_ok h
+  obtain ⟨ps, _, h⟩ := Res.bind_ok h
+  obtain ⟨eq, _, h⟩ := Res.bind_ok h
+  obtain ⟨b, hb, h⟩ := Res.bind_ok h
+  split at h
+  · cases h
+  · rename_i i hi
+    obtain ⟨x, hx, h⟩ := Res.bind_ok h
+    obtain ⟨st, hst, h⟩ := Res.bind_ok h
+    injection h with h
+    subst h
+    exact ⟨b, i, x, st, hb, hi, hx, hst, rfl, rfl⟩
+
+/-- a bankruptcy settlement moves the bank's debt total by exactly what the bankrupt position's debt moves (the loss
+    socialisation touches the deposit share value only), abandons nothing, and leaves the account's other positions alone -/
+theorem bankruptcy_ledger {c : Ctx} {available : Int} {o : BkrOut} (h : bankruptcy c available = .ok o) :
+    LedgerStepG c.b.key c.a.slots o.slots c.b.books o.books 0 0 := by
+  obtain ⟨b, i, x, st, hb, hi, hx, hst, hbooks, hslots⟩ := bankruptcy_core h
+  obtain ⟨s, hs, hact, hbank⟩ := findIdx_slot hi
+  obtain ⟨s', hs', rfl⟩ := balAt_ok hx
+  have : s' = s := by rw [hs] at hs'; injection hs' with hs'; exact hs'.symm
+  subst this
+  obtain ⟨t1, t2⟩ := accrue_totals hb
+  unfold settleBankruptcy at hst
+  obtain ⟨badDebt, _, hst⟩ := Res.bind_ok hst
+  obtain ⟨_, _, hst⟩ := Res.bind_ok hst
+  obtain ⟨rest, _, hst⟩ := Res.bind_ok hst
+  obtain ⟨up, _, hst⟩ := Res.bind_ok hst
+  obtain ⟨cu, _, hst⟩ := Res.bind_ok hst
+  obtain ⟨⟨b1, kill⟩, hsoc, hst⟩ := Res.bind_ok hst
+  dsimp only at hst
+  obtain ⟨⟨b2, bal2⟩, hinc, hst⟩ := Res.bind_ok hst
+  injection hst with hst
+  subst hst
+  obtain ⟨u1, u2⟩ := socializeLoss_totals hsoc
+  obtain ⟨d1, d2⟩ := DeltaL.increase_delta_eq hinc
+  have d3 := inc_active hinc
+  obtain ⟨w1, w2, w3⟩ := set_pos (key := c.b.key) (x' := bal2) hs hact hbank (Or.inl (by rw [d3]; simpa [toBal] using hact))
+  refine ⟨?_, ?_, ?_⟩
+  · rw [hslots, hbooks, w1]; simp only [toBal] at d1; dsimp only; omega
+  · rw [hslots, hbooks, w2]; simp only [toBal] at d2; dsimp only; omega
+  · intro k hk; rw [hslots]; exact w3 k hk
+
+/-! ### liquidation: two accounts, two banks -/
+
+/-- what a successful `World.liquidate` did to the two slot arrays and the two books -/
+theorem liquidate_core {c : LiqCtx} {amount : Int} {o : LiqOutW} (h : liquidate c amount = .ok o) :
+    c.ab.key ≠ c.lb.key ∧
+    ∃ (a l : Bank) (aLq aFin : Int) (lq1 : List Slot) (i1 : Nat) (s1 : Slot) (r1 : Bank × Balance) (i2 : Nat) (s2 : Slot) (r2 : Bank × Balance)
+      (lq3 : List Slot) (i3 : Nat) (s3 : Slot) (r3 : Bank × Balance) (i4 : Nat) (s4 : Slot) (r4 : Bank × Balance) (f : Int),
+      accrueInterest c.ab.books c.ab.ir c.now = .ok a ∧ accrueInterest c.lb.books c.lb.ir c.now = .ok l ∧
+      findOrCreate c.lq.slots c.lb.key l.assetTag c.now = .ok (lq1, i1) ∧ lq1[i1]? = some s1 ∧
+      decreaseBalance l (toBal s1) c.now aLq .bypassBorrowLimit = .ok r1 ∧
+      findIdx (sortBalances c.le.slots) c.ab.key = some i2 ∧ (sortBalances c.le.slots)[i2]? = some s2 ∧
+      decreaseBalance a (toBal s2) c.now (Fx.ofInt amount) .bypassBorrowLimit = .ok r2 ∧
+      findOrCreate (lq1.set i1 (ofBal c.lb.key r1.2)) c.ab.key r2.1.assetTag c.now = .ok (lq3, i3) ∧ lq3[i3]? = some s3 ∧
+      increaseBalance r2.1 (toBal s3) c.now (Fx.ofInt amount) .bypassDepositLimit = .ok r3 ∧
+      findIdx ((sortBalances c.le.slots).set i2 (ofBal c.ab.key r2.2)) c.lb.key = some i4 ∧
+      ((sortBalances c.le.slots).set i2 (ofBal c.ab.key r2.2))[i4]? = some s4 ∧
+      increaseBalance r1.1 (toBal s4) c.now aFin .repayOnly = .ok r4 ∧
+      o.lqSlots = sortBalances (lq3.set i3 (ofBal c.ab.key r3.2)) ∧
+      o.leSlots = ((sortBalances c.le.slots).set i2 (ofBal c.ab.key r2.2)).set i4 (ofBal c.lb.key r4.2) ∧
+      o.assetBooks = r3.1 ∧ o.liabBooks = { r4.1 with feeI := f } := by
+  unfold liquidate at h
+  obtain ⟨_, _, h⟩ := Res.bind_ok h
+  obtain ⟨_, _, h⟩ := Res.bind_ok h
+  obtain ⟨_, hdiff, h⟩ := Res.bind_ok h
+  obtain ⟨_, _, h⟩ := Res.bind_ok h
+  obtain ⟨_, _, h⟩ := Res.bind_ok h
+  obtain ⟨_, _, h⟩ := Res.bind_ok h
+  obtain ⟨_, _, h⟩ := Res.bind_ok h
+  obtain ⟨_, _, h⟩ := Res.bind_ok h
+  obtain ⟨_, _, h⟩ := Res.bind_ok h
+  obtain ⟨a, ha, h⟩ := Res.bind_ok h
+  obtain ⟨l, hl, h⟩ := Res.bind_ok h
+  obtain ⟨_, _, h⟩ := Res.bind_ok h
+  obtain ⟨ps, _, h⟩ := Res.bind_ok h
+  obtain ⟨pre, _, h⟩ := Res.bind_ok h
+  obtain ⟨ap, _, h⟩ := Res.bind_ok h
+  obtain ⟨_, _, h⟩ := Res.bind_ok h
+  obtain ⟨lp, _, h⟩ := Res.bind_ok h
+  obtain ⟨_, _, h⟩ := Res.bind_ok h
+  obtain ⟨⟨aLq, aFin, aFee⟩, _, h⟩ := Res.bind_ok h
+  dsimp only at h
+  obtain ⟨⟨lq1, i1⟩, hf1, h⟩ := Res.bind_ok h
+  dsimp only at h
+  obtain ⟨x1, hx1, h⟩ := Res.bind_ok h
+  obtain ⟨r1, hr1, h⟩ := Res.bind_ok h
+  obtain ⟨i2, hi2, h⟩ := Res.bind_ok h
+  obtain ⟨x2, hx2, h⟩ := Res.bind_ok h
+  obtain ⟨preA, _, h⟩ := Res.bind_ok h
+  obtain ⟨_, _, h⟩ := Res.bind_ok h
+  obtain ⟨r2, hr2, h⟩ := Res.bind_ok h
+  obtain ⟨⟨lq3, i3⟩, hf3, h⟩ := Res.bind_ok h
+  dsimp only at h
+  obtain ⟨x3, hx3, h⟩ := Res.bind_ok h
+  obtain ⟨r3, hr3, h⟩ := Res.bind_ok h
+  obtain ⟨fw, _, h⟩ := Res.bind_ok h
+  obtain ⟨i4, hi4, h⟩ := Res.bind_ok h
+  obtain ⟨x4, hx4, h⟩ := Res.bind_ok h
+  obtain ⟨r4, hr4, h⟩ := Res.bind_ok h
+  obtain ⟨f, _, h⟩ := Res.bind_ok h
+  obtain ⟨ps', _, h⟩ := Res.bind_ok h
+  obtain ⟨lp', _, h⟩ := Res.bind_ok h
+  obtain ⟨post, _, h⟩ := Res.bind_ok h
+  obtain ⟨_, _, h⟩ := Res.bind_ok h
+  injection h with h
+  subst h
+  obtain ⟨s1, hs1, rfl⟩ := balAt_ok hx1
+  obtain ⟨s2, hs2, rfl⟩ := balAt_ok hx2
+  obtain ⟨s3, hs3, rfl⟩ := balAt_ok hx3
+  obtain ⟨s4, hs4, rfl⟩ := balAt_ok hx4
+  have hi2' : findIdx (sortBalances c.le.slots) c.ab.key = some i2 := by
+    split at hi2
+    · rename_i j hj; injection hi2 with hi2; subst hi2; exact hj
+    · cases hi2
+  have hi4' : findIdx ((sortBalances c.le.slots).set i2 (ofBal c.ab.key r2.2)) c.lb.key = some i4 := by
+    split at hi4
+    · rename_i j hj; injection hi4 with hi4; subst hi4; exact hj
+    · cases hi4
+  refine ⟨by simpa using chk_ok hdiff, a, l, aLq, aFin, lq1, i1, s1, r1, i2, s2, r2, lq3, i3, s3, r3, i4, s4, r4, f,
+    ha, hl, hf1, hs1, hr1, hi2', hs2, hr2, hf3, hs3, hr3, hi4', hs4, hr4, rfl, rfl, rfl, rfl⟩
+
+/-- **the ledger step of a liquidation**: each of the two banks' share totals moves by exactly what the TWO accounts' slot
+    arrays gain or lose in that bank; nothing is abandoned; neither account's holdings in any third bank change -/
+structure LedgerStep2 (c : LiqCtx) (o : LiqOutW) : Prop where
+  ne : c.ab.key ≠ c.lb.key
+  aA : o.assetBooks.sa - c.ab.books.sa = (posA c.ab.key o.lqSlots - posA c.ab.key c.lq.slots) + (posA c.ab.key o.leSlots - posA c.ab.key c.le.slots)
+  aL : o.assetBooks.sl - c.ab.books.sl = (posL c.ab.key o.lqSlots - posL c.ab.key c.lq.slots) + (posL c.ab.key o.leSlots - posL c.ab.key c.le.slots)
+  lA : o.liabBooks.sa - c.lb.books.sa = (posA c.lb.key o.lqSlots - posA c.lb.key c.lq.slots) + (posA c.lb.key o.leSlots - posA c.lb.key c.le.slots)
+  lL : o.liabBooks.sl - c.lb.books.sl = (posL c.lb.key o.lqSlots - posL c.lb.key c.lq.slots) + (posL c.lb.key o.leSlots - posL c.lb.key c.le.slots)
+  others : ∀ k, k ≠ c.ab.key → k ≠ c.lb.key →
+    posA k o.lqSlots = posA k c.lq.slots ∧ posL k o.lqSlots = posL k c.lq.slots ∧
+    posA k o.leSlots = posA k c.le.slots ∧ posL k o.leSlots = posL k c.le.slots
+
+theorem liquidate_ledger {c : LiqCtx} {amount : Int} {o : LiqOutW} (h : liquidate c amount = .ok o) : LedgerStep2 c o := by
+  obtain ⟨hne, a, l, aLq, aFin, lq1, i1, s1, r1, i2, s2, r2, lq3, i3, s3, r3, i4, s4, r4, f,
+    ha, hl, hf1, hs1, hr1, hi2, hs2, hr2, hf3, hs3, hr3, hi4, hs4, hr4, hoq, hoe, hoa, hol⟩ := liquidate_core h
+  obtain ⟨ta1, ta2⟩ := accrue_totals ha
+  obtain ⟨tl1, tl2⟩ := accrue_totals hl
+  -- move 1: liquidator, debt bank
+  obtain ⟨p1, s1', hs1', act1, bk1⟩ := findOrCreate_pos hf1
+  have e1 : s1' = s1 := by rw [hs1] at hs1'; injection hs1' with hs1'; exact hs1'.symm
+  subst e1
+  obtain ⟨d1a, d1l⟩ := DeltaL.decrease_delta_eq hr1
+  have a1 := dec_active hr1
+  obtain ⟨w1a, w1l, w1o⟩ := set_pos (key := c.lb.key) (x' := r1.2) hs1 act1 bk1 (Or.inl (by rw [a1]; simpa [toBal] using act1))
+  -- move 2: liquidatee, collateral bank
+  obtain ⟨s2', hs2', act2, bk2⟩ := findIdx_slot hi2
+  have e2 : s2' = s2 := by rw [hs2] at hs2'; injection hs2' with hs2'; exact hs2'.symm
+  subst e2
+  obtain ⟨d2a, d2l⟩ := DeltaL.decrease_delta_eq hr2
+  have a2 := dec_active hr2
+  obtain ⟨w2a, w2l, w2o⟩ := set_pos (key := c.ab.key) (x' := r2.2) hs2 act2 bk2 (Or.inl (by rw [a2]; simpa [toBal] using act2))
+  -- move 3: liquidator, collateral bank
+  obtain ⟨p3, s3', hs3', act3, bk3⟩ := findOrCreate_pos hf3
+  have e3 : s3' = s3 := by rw [hs3] at hs3'; injection hs3' with hs3'; exact hs3'.symm
+  subst e3
+  obtain ⟨d3a, d3l⟩ := DeltaL.increase_delta_eq hr3
+  have a3 := inc_active hr3
+  obtain ⟨w3a, w3l, w3o⟩ := set_pos (key := c.ab.key) (x' := r3.2) hs3 act3 bk3 (Or.inl (by rw [a3]; simpa [toBal] using act3))
+  -- move 4: liquidatee, debt bank
+  obtain ⟨s4', hs4', act4, bk4⟩ := findIdx_slot hi4
+  have e4 : s4' = s4 := by rw [hs4] at hs4'; injection hs4' with hs4'; exact hs4'.symm
+  subst e4
+  obtain ⟨d4a, d4l⟩ := DeltaL.increase_delta_eq hr4
+  have a4 := inc_active hr4
+  obtain ⟨w4a, w4l, w4o⟩ := set_pos (key := c.lb.key) (x' := r4.2) hs4 act4 bk4 (Or.inl (by rw [a4]; simpa [toBal] using act4))
+  have hne' : c.lb.key ≠ c.ab.key := fun e => hne e.symm
+  simp only [toBal] at d1a d1l d2a d2l d3a d3l d4a d4l
+  refine ⟨hne, ?_, ?_, ?_, ?_, ?_⟩
+  · -- collateral bank, deposit shares
+    rw [hoq, hoe, hoa, posA_sort, w3a, (p3 c.ab.key).1, (w1o c.ab.key hne).1, (p1 c.ab.key).1,
+      (w4o c.ab.key hne).1, w2a, posA_sort]
+    omega
+  · rw [hoq, hoe, hoa, posL_sort, w3l, (p3 c.ab.key).2, (w1o c.ab.key hne).2, (p1 c.ab.key).2,
+      (w4o c.ab.key hne).2, w2l, posL_sort]
+    omega
+  · -- debt bank
+    rw [hoq, hoe, hol, posA_sort, (w3o c.lb.key hne').1, (p3 c.lb.key).1, w1a, (p1 c.lb.key).1,
+      w4a, (w2o c.lb.key hne').1, posA_sort]
+    dsimp only
+    omega
+  · rw [hoq, hoe, hol, posL_sort, (w3o c.lb.key hne').2, (p3 c.lb.key).2, w1l, (p1 c.lb.key).2,
+      w4l, (w2o c.lb.key hne').2, posL_sort]
+    dsimp only
+    omega
+  · intro k hka hkl
+    refine ⟨?_, ?_, ?_, ?_⟩
+    · rw [hoq, posA_sort, (w3o k hka).1, (p3 k).1, (w1o k hkl).1, (p1 k).1]
+    · rw [hoq, posL_sort, (w3o k hka).2, (p3 k).2, (w1o k hkl).2, (p1 k).2]
+    · rw [hoe, (w4o k hkl).1, (w2o k hka).1, posA_sort]
+    · rw [hoe, (w4o k hkl).2, (w2o k hka).2, posL_sort]
+
+theorem commit2_inv {w : WState} {qi ei abi lbi : Nat} {lq le : AcctV} {ab lb : WBank} {o : LiqOutW} {signer : Nat}
+    (hi : WInv w) (hqe : qi ≠ ei) (hbl : abi ≠ lbi)
+    (hq : w.accts[qi]? = some lq) (he : w.accts[ei]? = some le) (hab : w.banks[abi]? = some ab) (hlb : w.banks[lbi]? = some lb)
+    (hs : LedgerStep2 (w.liqCtx lq le ab lb signer) o) : WInv (w.commit2 qi ei abi lbi lq le ab lb o) := by
+  obtain ⟨hk, hA, hL⟩ := hi
+  obtain ⟨hne, sAA, sAL, sLA, sLL, sO⟩ := hs
+  simp only [WState.liqCtx] at hne sAA sAL sLA sLL sO
+  have lenA : abi < w.banks.length := by
+    rcases Nat.lt_or_ge abi w.banks.length with h | h
+    · exact h
+    · rw [List.getElem?_eq_none h] at hab; cases hab
+  have lenL : lbi < w.banks.length := by
+    rcases Nat.lt_or_ge lbi w.banks.length with h | h
+    · exact h
+    · rw [List.getElem?_eq_none h] at hlb; cases hlb
+  have getb : ∀ j, ((w.banks.set abi { ab with v := { ab.v with books := o.assetBooks } }).set lbi { lb with v := { lb.v with books := o.liabBooks } })[j]? =
+      if lbi = j then some { lb with v := { lb.v with books := o.liabBooks } }
+      else if abi = j then some { ab with v := { ab.v with books := o.assetBooks } } else w.banks[j]? := by
+    intro j
+    rw [List.getElem?_set, List.getElem?_set]
+    by_cases h1 : lbi = j
+    · subst h1; simp [lenL]
+    · by_cases h2 : abi = j
+      · subst h2; simp [h1, lenA]
+      · simp [h1, h2]
+  have he' : (w.accts.set qi { lq with slots := o.lqSlots })[ei]? = some le := by
+    rw [List.getElem?_set]; simp [hqe, he]
+  have sumf : ∀ f : AcctV → Int,
+      (((w.accts.set qi { lq with slots := o.lqSlots }).set ei { le with slots := o.leSlots }).map f).sum =
+      (w.accts.map f).sum - f lq + f { lq with slots := o.lqSlots } - f le + f { le with slots := o.leSlots } := by
+    intro f
+    rw [sum_map_set f _ ei le _ he', sum_map_set f w.accts qi lq _ hq]
+  have keyAL : ab.v.key ≠ lb.v.key := hne
+  refine ⟨?_, ?_, ?_⟩
+  · intro i j x y hx hy hij
+    simp only [WState.commit2] at hx hy
+    rw [getb] at hx hy
+    have keyOf : ∀ (m : Nat) (z : WBank),
+        (if lbi = m then some { lb with v := { lb.v with books := o.liabBooks } }
+         else if abi = m then some { ab with v := { ab.v with books := o.assetBooks } } else w.banks[m]?) = some z →
+        ∃ z0, w.banks[m]? = some z0 ∧ z.v.key = z0.v.key := by
+      intro m z hz
+      by_cases h1 : lbi = m
+      · simp only [h1, if_true] at hz; injection hz with hz; subst hz; exact ⟨lb, by rw [← h1]; exact hlb, rfl⟩
+      · by_cases h2 : abi = m
+        · simp only [h1, h2, if_true, if_false] at hz; injection hz with hz; subst hz; exact ⟨ab, by rw [← h2]; exact hab, rfl⟩
+        · simp only [h1, h2, if_false] at hz; exact ⟨z, hz, rfl⟩
+    obtain ⟨x0, hx0, ex⟩ := keyOf i x hx
+    obtain ⟨y0, hy0, ey⟩ := keyOf j y hy
+    rw [ex, ey]
+    exact hk i j x0 y0 hx0 hy0 hij
+  · intro j x hx
+    simp only [WState.commit2] at hx ⊢
+    rw [getb] at hx
+    rw [sumf]
+    by_cases h1 : lbi = j
+    · simp only [h1, if_true] at hx
+      injection hx with hx; subst hx
+      have := hA lbi lb hlb
+      dsimp only
+      omega
+    · by_cases h2 : abi = j
+      · simp only [h1, h2, if_true, if_false] at hx
+        injection hx with hx; subst hx
+        have := hA abi ab hab
+        dsimp only
+        omega
+      · simp only [h1, h2, if_false] at hx
+        have hna : x.v.key ≠ ab.v.key := hk j abi x ab hx hab (by omega)
+        have hnl : x.v.key ≠ lb.v.key := hk j lbi x lb hx hlb (by omega)
+        have := hA j x hx
+        obtain ⟨o1, _, o3, _⟩ := sO x.v.key hna hnl
+        dsimp only
+        omega
+  · intro j x hx
+    simp only [WState.commit2] at hx ⊢
+    rw [getb] at hx
+    rw [sumf]
+    by_cases h1 : lbi = j
+    · simp only [h1, if_true] at hx
+      injection hx with hx; subst hx
+      have := hL lbi lb hlb
+      dsimp only
+      omega
+    · by_cases h2 : abi = j
+      · simp only [h1, h2, if_true, if_false] at hx
+        injection hx with hx; subst hx
+        have := hL abi ab hab
+        dsimp only
+        omega
+      · simp only [h1, h2, if_false] at hx
+        have hna : x.v.key ≠ ab.v.key := hk j abi x ab hx hab (by omega)
+        have hnl : x.v.key ≠ lb.v.key := hk j lbi x lb hx hlb (by omega)
+        have := hL j x hx
+        obtain ⟨_, o2, _, o4⟩ := sO x.v.key hna hnl
+        dsimp only
+        omega
+
 theorem step_inv (w : WState) (op : WOp) (hi : WInv w) : WInv (w.step op) := by
   cases op with
   | tick dt => exact ⟨hi.keys, hi.ledgerA, hi.ledgerL⟩
@@ -394,6 +747,27 @@ theorem step_inv (w : WState) (op : WOp) (hi : WInv w) : WInv (w.step op) := by
         exact commit_inv hi ha hb (close_ledger ho)
       · exact hi
     · exact hi
+  | bankruptcy ai bi signer available =>
+    simp only [WState.step]
+    split
+    · rename_i a b ha hb
+      split
+      · rename_i o ho
+        exact commit_inv hi ha hb (bankruptcy_ledger ho)
+      · exact hi
+    · exact hi
+  | liquidate qi ei abi lbi signer amount =>
+    simp only [WState.step]
+    split
+    · exact hi
+    · rename_i hne
+      split
+      · rename_i lq le ab lb hq he hab hlb
+        split
+        · rename_i o ho
+          exact commit2_inv hi (by omega) (by omega) hq he hab hlb (liquidate_ledger ho)
+        · exact hi
+      · exact hi
 
 theorem run_inv (ops : List WOp) : ∀ (w : WState), WInv w → WInv (w.run ops) := by
   induction ops with
